@@ -303,3 +303,44 @@ pub fn sweep_values(rep: &Reporter, c: &Counters, i: &Instr, avals: &[u32], bval
         c.sample(json!({"instr": render_instr(i), "emitted": p.line, "a_values": avals.len(), "b_values": bvals.len(), "flag_words": 8, "one_pre_state": pre.r.json()}));
     }
 }
+
+/// End-to-end conformance of one program: render, run through the real CLI binary with the given
+/// stdin, run the reference interpreter on the AST, and match the CLI's stdout against the
+/// reference's event list. Returns a violation-like triple (field, expected, got) on mismatch.
+pub fn cli_conformance(
+    prog: &Program,
+    macro_bodies: &std::collections::HashMap<String, Vec<Item>>,
+    stdin_lines: &[String],
+    interpreted: bool,
+    horizon: usize,
+) -> (String, crate::refprog::RefRun, crate::cli::CliOut, Option<(String, String, String)>) {
+    use crate::cli::*;
+    use crate::refprog as rp;
+    let src = render(prog);
+    let flat = rp::flatten(prog, macro_bodies);
+    let rr = rp::run(&flat, &rp::RunOpts { stdin: stdin_lines.to_vec(), interpreted, horizon });
+    let mut stdin = String::new();
+    for l in stdin_lines {
+        stdin.push_str(l);
+        stdin.push('\n');
+    }
+    let mut o = CliOpts::default();
+    o.interpreted = interpreted;
+    let out = run_cli(&src, &stdin, &o);
+    if rr.stop == rp::Stop::Horizon {
+        // diverging program: not part of the explored space
+        return (src, rr, out, None);
+    }
+    if let Some(a) = out.abnormal() {
+        let r = Some(("exit".to_string(), "normal termination (exit status 0)".to_string(), format!("{}: {}", a, out.summary())));
+        return (src, rr, out, r);
+    }
+    let res = {
+        let mut m = crate::cliobs::Matcher::new(&out.stdout, &src);
+        match m.match_all(&rr.events) {
+            Ok(()) => None,
+            Err(e) => Some((e.field, e.expected, format!("event #{} of {:?}; {}", e.event_index, rr.events.len(), e.got))),
+        }
+    };
+    (src, rr, out, res)
+}
